@@ -156,6 +156,18 @@ fn history(req: &json::JsonValue) -> json::JsonValue {
                     let after = vm.execute_program().map_err(|e| crate::estr(&e));
                     if e && before != after { a = (true, format!("refused set_program changed execute_program from {before:?} to {after:?}")); }
                 }
+                if !a.0 {
+                    // the frame sizes computed for the loaded program (custom calculator) must survive a refused load:
+                    // main calls f, f calls g; the value is (r10 seen by f) - (r10 seen by g) = frame size of f
+                    let nested: &'static [u8] = &[0x85, 0x10, 0, 0, 1, 0, 0, 0, 0x95, 0, 0, 0, 0, 0, 0, 0, 0xbf, 0xa6, 0, 0, 0, 0, 0, 0, 0x85, 0x10, 0, 0, 1, 0, 0, 0, 0x95, 0, 0, 0, 0, 0, 0, 0,
+                                                  0xbf, 0x60, 0, 0, 0, 0, 0, 0, 0x1f, 0xa0, 0, 0, 0, 0, 0, 0, 0x95, 0, 0, 0, 0, 0, 0, 0];
+                    fn calc32(_p: &[u8], _pc: usize, _d: &mut dyn std::any::Any) -> u16 { 32 }
+                    let mut vm = rbpf::EbpfVmNoData::new(Some(nested)).unwrap(); vm.set_stack_usage_calculator(calc32, Box::new(())).unwrap();
+                    let before = vm.execute_program().map_err(|e| crate::estr(&e));
+                    let e = vm.set_program(bad).is_err();
+                    let after = vm.execute_program().map_err(|e| crate::estr(&e));
+                    if e && before != after { a = (true, format!("refused set_program changed execute_program of a program with nested local calls and a stack-usage calculator from {before:?} to {after:?}")); }
+                }
                 if a.0 { return a; }
                 // probe reads 8 bytes at offset 100 of the internal buffer: out of bounds while the buffer has 32 bytes
                 let probe: &'static [u8] = &[0x79, 0x10, 100, 0, 0, 0, 0, 0, 0x95, 0, 0, 0, 0, 0, 0, 0];
@@ -233,6 +245,31 @@ fn api_transcript(_req: &json::JsonValue) -> json::JsonValue {
               Ok(t) => json::object! { "status": "ok", "transcript": json::JsonValue::Array(t.into_iter().map(|x| x.into()).collect()) } }
 }
 
+// EbpfVmFixedMbuff: configure (new with `old` offsets, optionally set_program with `new` offsets), then read back through a probe program
+// what the program finds at the two configured offsets of the buffer r1 points to (C09 configuration invariant replay)
+fn fixed_reload(req: &json::JsonValue) -> json::JsonValue {
+    let old = (req["old"][0].as_usize().unwrap_or(0), req["old"][1].as_usize().unwrap_or(8));
+    let newo = (req["new"][0].as_usize().unwrap_or(0), req["new"][1].as_usize().unwrap_or(8));
+    let reload = req["reload"].as_bool().unwrap_or(true);
+    fn probe(off: usize) -> &'static [u8] {      // ldxdw r0, [r1+off]; exit
+        let o = (off as i16).to_le_bytes(); Box::leak(vec![0x79, 0x10, o[0], o[1], 0, 0, 0, 0, 0x95, 0, 0, 0, 0, 0, 0, 0].into_boxed_slice())
+    }
+    let r = panic::catch_unwind(|| -> Vec<String> {
+        let mut t = Vec::new();
+        let mem: &'static mut [u8] = Box::leak(vec![7u8; 24].into_boxed_slice()); let (mp, ml) = (mem.as_ptr() as u64, mem.len() as u64);
+        for (which, off) in [("data", newo.0), ("data_end", newo.1)] {
+            let mut vm = if reload { let mut vm = rbpf::EbpfVmFixedMbuff::new(Some(probe(off)), old.0, old.1).unwrap(); t.push(format!("set_program: {:?}", vm.set_program(probe(off), newo.0, newo.1).map_err(|e| crate::estr(&e)))); vm }
+                         else { rbpf::EbpfVmFixedMbuff::new(Some(probe(off)), newo.0, newo.1).unwrap() };
+            let m2: &'static mut [u8] = unsafe { std::slice::from_raw_parts_mut(mp as *mut u8, ml as usize) };
+            let want = if which == "data" { mp } else { mp + ml };
+            t.push(format!("{}: {}", which, match vm.execute_program(m2) { Ok(v) => if v == want { "as documented".to_string() } else { format!("Ok({:#x}) but the packet {} is {:#x}", v, which, want) }, Err(e) => format!("Err({})", crate::estr(&e)) }));
+        }
+        t
+    });
+    match r { Err(p) => json::object! { "status": "panic", "msg": pmsg(p) },
+              Ok(t) => json::object! { "status": "ok", "transcript": json::JsonValue::Array(t.into_iter().map(|x| x.into()).collect()) } }
+}
+
 fn assemble(req: &json::JsonValue) -> json::JsonValue {
     let text = req["text"].as_str().unwrap_or("").to_string();
     match panic::catch_unwind(|| rbpf::assembler::assemble(&text)) {
@@ -255,6 +292,7 @@ pub fn dispatch(op: &str, req: &json::JsonValue) -> json::JsonValue {
         "assemble" => assemble(req),
         "disassemble" => disassemble(req),
         "history" => history(req),
+        "fixed_reload" => crate::isolated(req, fixed_reload),
         "api_transcript" => crate::isolated(req, api_transcript),
         "call_helper" => call_helper(req),
         "load" => load(req),
